@@ -16,7 +16,7 @@ import (
 // evaluated on the trie found in the returned server, for the sites' own hosts and for a host no site has.
 func c01R7(h H) {
 	r := h.r
-	r.Rule("R7", "the server's routing table as NewServer builds it (E10): for every group of one or two sites whose addresses are written as host, HOST:port, host:port/x or scheme://Host:port (labels opaque, any letter case), each possibly designated a fallback site, and a catch-all site present or not, NewServer (the http.Server construction and TLS set-up being oracles) yields a server whose trie sends a request for a site's own host (other letter case) to that site, and a request for a host no site has to the catch-all site, else to the designated fallback site whose path prefix matches, else to no site", 1)
+	r.Rule("R7", "the server's routing table as NewServer builds it (E10): for every group of one or two sites whose addresses are written as host, HOST:port, host:port/x or scheme://Host:port (labels opaque, any letter case), each possibly designated a fallback site, and a catch-all site present or not, NewServer (the http.Server construction and TLS set-up being oracles) yields a server whose trie sends a request for a site's own host (other letter case, with or without port) to that site, and a request for a host no site has to the catch-all site, else to the designated fallback site whose path prefix matches, else to no site", 1)
 	ns := h.fn("R7", hs, "NewServer")
 	match := h.fn("R7", hs, "(*vhostTrie).Match")
 	if ns == nil || match == nil {
@@ -179,6 +179,8 @@ func c01R7(h H) {
 			}
 			hostUp := []atom{lab(names[i][0], 2), dot, lab(names[i][1], 2), dot, lab(names[i][2], 2)}
 			reqs = append(reqs, reqT{"its own host, path /x", hostUp, []atom{sl, x}, []string{"x"}, i})
+			// the lookup key may still carry the port (Match strips it as Insert does)
+			reqs = append(reqs, reqT{"its own host with port :8080, path /x", append(append([]atom{}, hostUp...), atom{lit: ":8080"}), []atom{sl, x}, []string{"x"}, i})
 		}
 		unk := []atom{lab("U", 2), dot, lab("V", 2), dot, lab("W", 2)}
 		reqs = append(reqs, reqT{"unknown host U.V.W, path /", unk, []atom{sl}, nil, -1}, reqT{"unknown host U.V.W, path /x", unk, []atom{sl, x}, []string{"x"}, -1})
